@@ -77,11 +77,11 @@ class Registry:
                 body += [z3.Not(k(v)) for k in kinds]
             if not (hasattr(c, "__bool__") or hasattr(c, "__len__")):
                 body.append(smt.truthy(v))
-            ax.append(z3.ForAll([v], z3.Implies(p(v), z3.And(*body)), patterns=[p(v)]))
+            ax.append(smt.forall([v], z3.Implies(p(v), z3.And(*body)), patterns=[p(v)]))
         for a, b in itertools.permutations(names, 2):
             ca, cb = self.classes[a], self.classes[b]
             if issubclass(ca, cb):
-                ax.append(z3.ForAll([v], z3.Implies(smt.inst_pred(a)(v), smt.inst_pred(b)(v)), patterns=[smt.inst_pred(a)(v)]))
+                ax.append(smt.forall([v], z3.Implies(smt.inst_pred(a)(v), smt.inst_pred(b)(v)), patterns=[smt.inst_pred(a)(v)]))
         for a, b in itertools.combinations(names, 2):
             ca, cb = self.classes[a], self.classes[b]
             if issubclass(ca, cb) or issubclass(cb, ca):
@@ -90,7 +90,7 @@ class Registry:
             if any(issubclass(c, ca) and issubclass(c, cb) for c in self.classes.values()):
                 continue
             pa, pb = smt.inst_pred(a), smt.inst_pred(b)
-            ax.append(z3.ForAll([v], z3.Not(z3.And(pa(v), pb(v))), patterns=[z3.MultiPattern(pa(v), pb(v))]))
+            ax.append(smt.forall([v], z3.Not(z3.And(pa(v), pb(v))), patterns=[z3.MultiPattern(pa(v), pb(v))]))
         return ax
 
 
@@ -361,6 +361,7 @@ def wrap_elem(t, ty):
 
 
 _VIEW_CACHE: dict = {}
+NOTES: set = set()
 
 
 def seq_view(val, st: St) -> SeqView:
@@ -386,6 +387,10 @@ def seq_view(val, st: St) -> SeqView:
     r = val.t
     if k == "seq":
         return SeqView(h.c["sl"][r], lambda i: Val(h.c["sa"][r][i], ty[1]), ty[1])
+    if k == "any":
+        # an untyped value that the code iterates / zips / takes len() of: modelled as a sequence (assumption, listed)
+        NOTES.add("iteration over an untyped value: modelled as a list/tuple")
+        return SeqView(h.c["sl"][r], lambda i: Val(h.c["sa"][r][i], ANY), ANY)
     if k in ("dict", "set"):
         # some enumeration of the keys/elements without repetition (any order: proved for all orders)
         comp = "dh" if k == "dict" else "sh"
@@ -399,9 +404,9 @@ def seq_view(val, st: St) -> SeqView:
         kx = z3.Const("ek", V)
         facts = [
             # enum is injective on ALL integers (consistent: V is infinite); unconditional inverse closes E-matching chains
-            z3.ForAll([i], idx_f(enum_f(i)) == i, patterns=[enum_f(i)]),
-            z3.ForAll([i], z3.Implies(z3.And(0 <= i, i < size), h.c[comp][r][enum_f(i)]), patterns=[enum_f(i)]),
-            z3.ForAll([kx], z3.Implies(h.c[comp][r][kx], z3.And(0 <= idx_f(kx), idx_f(kx) < size, enum_f(idx_f(kx)) == kx)), patterns=[h.c[comp][r][kx]]),
+            smt.forall([i], idx_f(enum_f(i)) == i, patterns=[enum_f(i)]),
+            smt.forall([i], z3.Implies(z3.And(0 <= i, i < size), h.c[comp][r][enum_f(i)]), patterns=[enum_f(i)]),
+            smt.forall([kx], z3.Implies(h.c[comp][r][kx], z3.And(0 <= idx_f(kx), idx_f(kx) < size, enum_f(idx_f(kx)) == kx)), patterns=[h.c[comp][r][kx]]),
             size >= 0,
         ]
         return SeqView(size, lambda i: Val(enum_f(i), ety), ety, facts, index_of=idx_f)
